@@ -61,8 +61,12 @@ pub(crate) fn resolve_types(sources: &[&Library]) -> Result<Library, Vec<Diagnos
     ];
 
     for xform in xforms {
+        #[cfg(ironplc_verif)]
+        ironplc_dsl::verif::event("stage:xform", ironplc_dsl::verif::decl_names(&library));
         library = xform(library)?
     }
+    #[cfg(ironplc_verif)]
+    ironplc_dsl::verif::event("stage:resolved", ironplc_dsl::verif::decl_names(&library));
 
     Ok(library)
 }
